@@ -47,4 +47,23 @@ CHECKS = {
   "text": "TimeoutMgr.tla models TimeoutManager/TimeoutBooster in integer milliseconds; TLC checks FloorOK, StaticOK, SampleClean, BoostRate, FreshSampleResets for every history up to 6-7 events over boundary inter-event times, then replays recorded random histories of the real TimeoutManager (virtual clock, 7 configurations incl. the mailbox's) through the specification's actions comparing all getters after each event.",
   "note": "float32 boost arithmetic compared with 1 ms tolerance; bounded history length in the model",
  },
+ "C02": {
+  "text": "CipherStream.tla models both directions' cipher states and a relay with drop/duplicate/swap/replay/reflect/corrupt/inject/truncate actions over symbolic AEAD chunks; TLC checks ReadPrefix for every interleaving; the same operators predict how many messages the reader returns before its first error for each edit script, and every script (all single edits, random multi-edit scripts, single-bit flips of every chunk) is executed on the ciphertext of real XX and KK sessions in both directions, TLC comparing outcome and prefix property.",
+  "note": "symbolic AEAD (a chunk opens iff direction, key generation and nonce match); only reads up to the first error are judged",
+  "technique": "TLA+ model checking (TLC) + model-predicted outcomes compared with the real code (function-trace validation)",
+ },
+ "C03": {
+  "text": "Noise.tla is a symbolic (Dolev-Yao) model of XXeke+SPAKE2 and KK; TLC evaluates CompleteOnlyIfAuthorised and NoResponseOnMismatch on every case (passphrases equal/different, expected static keys right/wrong on either side, all version ranges, payload classes, with tampering); the cases are executed on the real Machines (passphrases differing in single bits, wrong expected keys), counting every byte the responder writes and what is published to ConnData, and TLC compares each outcome with the prediction.",
+  "note": "computational hardness is the symbolic model's assumption; scrypt cost lowered by the upstream rpctest tag",
+  "technique": "TLA+ model checking (TLC) + model-predicted outcomes compared with the real code",
+ },
+ "C04": {
+  "text": "Noise.tla treats the version byte as the code does (cleartext, range-checked, adopted in act 2, compared in act 3, selects payload framing, not in the transcript); TLC evaluates Agreement on all version ranges x patterns x payload classes x every combination of version-byte substitutions x one corrupted field; a large sample (all of them in the thorough tier, plus single-bit flips of every handshake byte) is executed on real Machines behind a man in the middle and TLC compares the observed outcome with the prediction and evaluates Agreement on it. The version-1/2 confusion it finds is an open known finding.",
+  "note": "symbolic cryptography; quick tier samples the substitution combinations (the model covers all); payloads to 70000 bytes",
+  "technique": "TLA+ model checking (TLC) + model-predicted outcomes compared with the real code",
+ },
+ "C08": {
+  "text": "CipherStream.tla: nonce++ after every Encrypt/Decrypt, ratchet at ROT; TLC checks FreshPair, LockStep, NonceBound with a small ROT; real XX and KK sessions exchange thousands of records with the two directions interleaved across several rotations (real ROT = 1000), hooks in cipherState.Encrypt/Decrypt/rotateKey report every (key fingerprint, nonce) and TLC validates the log; the wire is scanned for plaintext, the auth payload and repeated ciphertext blocks.",
+  "note": "keys as 32-bit fingerprints; ChaCha20-Poly1305/HKDF trusted",
+ },
 }
